@@ -167,7 +167,8 @@ def layout_cases(draw):
         "qtype": draw(st.sampled_from(sorted(O.QT8))),
         "shape": shape,
         "axis": axis,
-        "layout": list(draw(gen.layouts)),
+        # "overlap": a sliding-window view (unfold): distinct elements share memory without any zero stride
+        "layout": ["overlap", draw(st.integers(0, 3))] if rank >= 2 and draw(st.integers(0, 5)) == 0 else list(draw(gen.layouts)),
         "seed": draw(st.integers(0, 2**20)),
         "fill": draw(st.sampled_from(["noise", "noise", "grid", "bits"])),
         "decades": draw(st.integers(0, 8)),
@@ -196,6 +197,12 @@ def layout_inputs(case):
         scale = sc.reshape(sshape)
     s64 = scale.to(torch.float64).expand(shape) if axis is not None else scale.to(torch.float64)
     G = O.grid(qtype)
+    if case["layout"][0] == "overlap" and len(shape) >= 2:
+        step = 1 + case["layout"][1] % 2
+        c, w = shape[-1], shape[-2]
+        vb = torch.randn(list(shape[:-2]) + [(w - 1) * step + c], generator=g, dtype=torch.float64) * float(s64.mean()) * float(G[-1]) * 0.6 * case["sat"]
+        x = gen.clamp_finite(vb, dtype).unfold(-1, c, step)  # (..., w, c) with strides (..., step, 1)
+        return x, scale, qtype, axis
     if case["fill"] == "noise":
         v = torch.randn(shape, generator=g, dtype=torch.float64) * s64 * float(G[-1]) * 0.6 * case["sat"]
     elif case["fill"] == "grid":
